@@ -1,12 +1,13 @@
 """C17 — merge fairness: the structural premises of the rotation argument."""
+from ..facts import base
 from .. import families, scan
 from ..families import loop_domain, ctor_fields, short
 from . import racelike, flow, common, c01, c20, prims
 
 PROPERTY = "C17"
 LEVEL = "other"
-CONFIGS_QUICK = ["std"]
-CONFIGS_THOROUGH = ["std", "alloc", "core"]
+CONFIGS_QUICK = ["std", "std-rel"]
+CONFIGS_THOROUGH = ["std", "alloc", "core", "std-rel", "alloc-rel", "core-rel"]
 EXPLANATION = (
     "Decides the four structural premises from which the N-yield bound follows (paper argument in DESIGN.md §3/C17), on the MIR "
     "of Indexer and of every merge poll_next body (tuple arities 1-12, array, Vec): (ROT) path summaries of Indexer::new / "
@@ -46,7 +47,7 @@ def run(ctx):
         # "an input that always has an item is visited again" rests on the bit discipline of the merges: a cleared bit is
         # followed by a poll, a yielding input is re-armed, the scan is not cut short
         c01.live_premises(ctx, M, units, "C17.REARM")
-        na = 1 if cfg == "core" else 2
+        na = 1 if base(cfg) == "core" else 2
         ctx.floor("C17.ROT", cfg, 3)
         ctx.floor("C17.USE", cfg, 12 + na)
         ctx.floor("C17.WIN", cfg, 2 * (78 + na))
